@@ -33,7 +33,7 @@ package capnp
 //@   ensures M(r) == ptrAddr(p, i)
 
 //@ func Struct.Ptr -> ptr, err
-//@   props C01 C02 C03
+//@   props C01 C02 C03 C08
 //@   requires wfStruct(p)
 //@   modifies Message.rlimit Message.rlimitInit Message.segs m:map[capnproto.org/go/capnp/v3.SegmentID]*capnproto.org/go/capnp/v3.Segment
 //@   ensures implies(err != nil, ptr.seg == nil)
@@ -147,7 +147,7 @@ package capnp
 //@   ensures implies(err == nil, M(addr)+szBytes(expectedSize) <= M(len(p.seg.data)))
 
 //@ func List.Struct -> r
-//@   props C01 C02 C03
+//@   props C01 C02 C03 C08
 //@   requires wfList(p)
 //@   requires idx: p.seg != nil && 0 <= i && i < int(p.length)
 //@   ensures wfStruct(r)
@@ -167,7 +167,7 @@ package capnp
 //@   ensures r == (isBit(p.List) && p.seg.data[int(M(p.off)+M(i)/8)]&(1<<(uint(i)%8)) != 0)
 
 //@ func PointerList.At -> ptr, err
-//@   props C01 C02 C03
+//@   props C01 C02 C03 C08
 //@   requires wfList(p.List)
 //@   requires idx: p.seg != nil && 0 <= i && i < int(p.length)
 //@   modifies Message.rlimit Message.rlimitInit Message.segs m:map[capnproto.org/go/capnp/v3.SegmentID]*capnproto.org/go/capnp/v3.Segment
@@ -230,7 +230,7 @@ package capnp
 //@   ensures r >= 1
 
 //@ func Segment.root -> r
-//@   props C01 C03
+//@   props C01 C03 C08
 //@   requires segOK(s)
 //@   modifies nothing
 //@   -- the one-element pointer list over the first word, or the zero list when the segment has no
@@ -252,7 +252,7 @@ package capnp
 // Reading the root of any message - including one whose first segment is shorter than a word -
 // never panics.
 //@ func Message.Root -> p, err
-//@   props C01 C03
+//@   props C01 C03 C08
 //@   requires m != nil && m.Arena != nil
 //@   ensures implies(err != nil, p.seg == nil)
 //@   ensures implies(err == nil, wfPtr(p))
